@@ -720,6 +720,7 @@ func runC08(c *Ctx) {
 		c08Kinds = append(c08Kinds, stor.OpClose)
 	}
 	once := &crSigOnce{}
+	c08WriteTraces(c, c.Scale(200, 2000)) // write-path traces for the Lean model (c08lean.go)
 	nwl := c.Scale(3, 10)
 	type job struct {
 		plan    *c08Plan
